@@ -5,6 +5,7 @@
 pub mod aes;
 pub mod aria;
 pub mod belt;
+pub mod blowfish;
 pub mod camellia;
 pub mod cast5;
 pub mod cast6;
@@ -14,12 +15,15 @@ pub mod gift128;
 pub mod gost89;
 pub mod idea;
 pub mod kuznyechik;
+pub mod pi_hex;
+pub mod rc2;
 pub mod rc5;
 pub mod serpent;
 pub mod sm4;
 pub mod speck;
 pub mod threefish;
 pub mod twofish;
+pub mod xtea;
 
 /// Uniform view of a keyed reference cipher.
 pub trait RefCipher: Send + Sync {
@@ -43,7 +47,7 @@ macro_rules! simple_ref {
         }
     )*};
 }
-simple_ref!(belt::Belt, gift128::Gift128, gost89::Gost89, kuznyechik::Kuznyechik, aes::Aes, aria::Aria, camellia::Camellia, cast5::Cast5, cast6::Cast6, des::Des, des::Tdes, idea::Idea, serpent::Serpent, sm4::Sm4, twofish::Twofish);
+simple_ref!(blowfish::Blowfish, rc2::Rc2, xtea::Xtea, belt::Belt, gift128::Gift128, gost89::Gost89, kuznyechik::Kuznyechik, aes::Aes, aria::Aria, camellia::Camellia, cast5::Cast5, cast6::Cast6, des::Des, des::Tdes, idea::Idea, serpent::Serpent, sm4::Sm4, twofish::Twofish);
 
 macro_rules! len_ref {
     ($($t:ty),*) => {$(
@@ -61,3 +65,17 @@ macro_rules! len_ref {
     )*};
 }
 len_ref!(rc5::Rc5, speck::Speck, threefish::Threefish);
+
+/// Blowfish with each 32-bit half read and written little-endian (`BlowfishLE`).
+pub struct BlowfishLe(pub blowfish::Blowfish);
+impl RefCipher for BlowfishLe {
+    fn block(&self) -> usize {
+        8
+    }
+    fn encrypt(&self, b: &mut [u8]) {
+        self.0.encrypt_le(b)
+    }
+    fn decrypt(&self, b: &mut [u8]) {
+        self.0.decrypt_le(b)
+    }
+}
